@@ -73,7 +73,7 @@ def main():
         if len(shard.samples) < 3 and len(src) < 300 and out.kind != "accepted":
             shard.sample({"source": src, "argv": argv, "outcome": out.kind})
 
-    strat = {"wild": c18.wild_source, "mutated": c18.mutated_typed_source, "typed": c18.typed_source, "sched": c18.sched_source}[which]()
+    strat = {"wild": c18.wild_source, "mutated": c18.mutated_typed_source, "typed": c18.typed_source, "sched": c18.sched_source, "oddexpr": c18.odd_expr_source}[which]()
 
     @settings(database=None, deadline=None, suppress_health_check=list(HealthCheck), verbosity=hypothesis.Verbosity.quiet)
     @given(strat)
